@@ -253,6 +253,20 @@ class _Normalise(ast.NodeTransformer):
 
     visit_AsyncFunctionDef = visit_FunctionDef
 
+    def visit_With(self, node):
+        # `with contextlib.suppress(E1, E2): body`  ->  `try: body  except (E1, E2): pass`  (what it means; error-discipline rules judge the handler)
+        self.generic_visit(node)
+        if len(node.items) == 1 and node.items[0].optional_vars is None and isinstance(node.items[0].context_expr, ast.Call):
+            c = node.items[0].context_expr
+            f = c.func
+            is_sup = (isinstance(f, ast.Name) and f.id == "suppress") or (isinstance(f, ast.Attribute) and f.attr == "suppress" and isinstance(f.value, ast.Name) and f.value.id == "contextlib")
+            if is_sup and c.args and not c.keywords and not any(isinstance(a, ast.Starred) for a in c.args):
+                typ = c.args[0] if len(c.args) == 1 else ast.copy_location(ast.Tuple(elts=list(c.args), ctx=ast.Load()), c)
+                h = ast.copy_location(ast.ExceptHandler(type=typ, name=None, body=[ast.copy_location(ast.Pass(), node)]), node)
+                t = ast.copy_location(ast.Try(body=node.body, handlers=[h], orelse=[], finalbody=[]), node)
+                return t
+        return node
+
     def visit_IfExp(self, node):
         self.generic_visit(node)
         pos = self._negative(node.test)
@@ -287,6 +301,14 @@ class Program:
                     continue
                 self._load(mod, full, rel, False)
         self._load_deps()
+        # calls of functions that do not exist on the reference tree (freshly extracted helpers) are expanded in place
+        from .inline import inline_new_helpers, load_inventory
+        known = None if os.environ.get("SIGSTAT_NO_INLINE") else load_inventory()
+        self.inline_log: List[str] = []
+        for m in list(self.modules.values()):
+            if not m.is_dep:
+                m.tree, log = inline_new_helpers(m.name, m.tree, known)
+                self.inline_log += log
         for m in list(self.modules.values()):
             self._index_module(m)
         self._resolve_bases()
@@ -296,7 +318,8 @@ class Program:
         try:
             with open(full, encoding="utf-8") as fh:
                 src = fh.read()
-            tree = _Normalise().visit(ast.parse(src, filename=full))
+            from .pathnorm import normalise_pathlib
+            tree = _Normalise().visit(normalise_pathlib(ast.parse(src, filename=full)))
         except (OSError, SyntaxError) as e:  # a tree that does not parse is not analysable
             self.parse_errors.append(f"{rel}: {e}")
             return
